@@ -52,8 +52,8 @@ prop("C01", ["prims.go", "c01.go"],
      note="Bound: " + C01_BOUND + ". Contracts: resolver, base64 and x509 outcomes are uninterpreted predicates; bufio/context/process are models. " + ENGINE)
 prop("C05", ["prims.go", "c01.go"],
      [run("start", "harnessC01", ["rejected"], native="start", quick={"witness": 24, "params": {"full": 0}, "bound": "as C01: every rejection cause the solver finds feasible (each field invalid in turn, timeout, EOF while alive, exit before output) x the configuration space of C01"}),
-      run("kill-after", "harnessC05killAfter", ["start-failed", "start-succeeded", "kill-later"], files=WORLD,
-          quick={"bound": "scripted plugins announcing five kinds of line (multiplexing unsupported, 4-field, net/rpc, gRPC, garbage) x allowed list x launch {RunnerFunc, exec.Cmd}; after a failed Start, Kill at once or three seconds later: returns promptly, process dead, socket directory removed"})],
+      run("kill-after", "harnessC05killAfter", ["start-failed", "start-succeeded", "kill-later", "more-stdout-after-the-line"], files=WORLD,
+          quick={"bound": "scripted plugins announcing five kinds of line (multiplexing unsupported, 4-field, net/rpc, gRPC, garbage), followed or not by two more stdout lines, x allowed list x launch {RunnerFunc, exec.Cmd}; after a failed Start, Kill at once or three seconds later: returns promptly, process dead, socket directory removed"})],
      [PROC, BUFIO, CTX, STR, NET, CRYPTO], ["as C01"],
      "launch by exec.Cmd (the real CmdRunner); process liveness is the model's (Kill was called on the runner)",
      text="Same symbolic run of the real Client.Start as C01 with the kill clause as the assertion: on every feasible path on which the runner was started and Start returns an error or panics, the runner's Kill has been called by then. Failure causes are not enumerated by hand - they are the paths the solver finds feasible.",
@@ -62,8 +62,8 @@ prop("C05", ["prims.go", "c01.go"],
 # ------------------------------------------------------------------------------------------------ C02
 prop("C02", ["prims.go", "c02a.go"],
      [run("core", "harnessC02a", ["common", "disjoint"], native="version", quick={"witness": 16, "bound": "host and plugin each with 2 versioned sets, versions arbitrary distinct ints; every map iteration order on both sides; PLUGIN_PROTOCOL_VERSIONS built as Start builds it"}),
-      run("composed", "harnessC02b", ["common", "disjoint"], files=["prims.go", "m_print.go", "c02b.go"],
-          quick={"bound": "host's real Start composed with the plugin's real Serve in one run: 2 x 2 versioned sets, arbitrary distinct versions, every map order; the version list travels through the real environment construction, the real protocolVersion, the printed line and the real parser"}),
+      run("composed", "harnessC02b", ["common", "disjoint", "inherited-version-list"], files=["prims.go", "m_print.go", "c02b.go"],
+          quick={"bound": "host's real Start composed with the plugin's real Serve in one run: 2 x 2 versioned sets, arbitrary distinct versions, every map order; the version list travels through the real environment construction, the real protocolVersion, the printed line and the real parser; the host's own environment is skipped, or is copied and carries a PLUGIN_PROTOCOL_VERSIONS inherited from the host's own launch (one arbitrary version)"}),
       run("general", "harnessC02n", ["common", "fallback-lowest", "host-legacy", "plugin-legacy", "no-list", "damaged-list", "host-refuses"], files=["prims.go", "c02a.go", "c02c.go"], no_map_perm=True,
           quick={"skip": True},
           thorough={"params": {"n": 2}, "max_wall_s": 1500, "bound": "2 versioned sets per side plus optionally the legacy ProtocolVersion+Plugins pair on either side (so up to 3 x 3 versions, including version 0 and a legacy pair colliding with a versioned key), gRPC server factory configured or not, each plugin set net/rpc or gRPC, version list exact / missing / one entry damaged; insertion-order map iteration in this run"})],
@@ -77,8 +77,8 @@ prop("C13", ["prims.go", "c13.go"],
      [run("check", "harnessC13", ["match", "mismatch", "empty-checksum", "nil-hash", "open-fails"], native="check",
           quick={"witness": 16, "params": {"bytes": 4}, "bound": "digest <= 4 bytes and checksum <= 5 bytes of BitVec 8, symbolic lengths; Hash nil or not; file open failing or not"},
           thorough={"witness": 32, "params": {"bytes": 8}, "bound": "digest <= 8 bytes and checksum <= 9 bytes of BitVec 8, symbolic lengths; Hash nil or not; file open failing or not"}),
-      run("start-order", "harnessC13start", ["launched", "refused", "runnerfunc-refused"], files=WORLD,
-          quick={"bound": "whole Client.Start composed with a real plugin, launch through exec.Cmd and through a RunnerFunc, SecureConfig with digest <= 2 and checksum <= 3 symbolic bytes: the process is launched iff the checksum matches"})],
+      run("start-order", "harnessC13start", ["launched", "refused", "runnerfunc-refused", "path-through-symlink"], files=WORLD,
+          quick={"bound": "whole Client.Start composed with a real plugin, launch through exec.Cmd and through a RunnerFunc, SecureConfig with digest <= 2 and checksum <= 3 symbolic bytes: the process is launched iff the checksum matches the digest of the file the kernel executes; command path plain, or through a symbolic link followed by '..' with a decoy (digest = the checksum) at the lexically cleaned path"})],
      ["hash.Hash is a harness implementation returning an arbitrary digest (the hash function itself is outside the claim)", "os.Open/io.Copy/File.Close modelled: open may fail"],
      ["os.Open", "io.Copy", "hash.Hash"], "digests longer than the bound; the hash function",
      text="Bounded symbolic model checking of the real SecureConfig.Check (including the real crypto/subtle.ConstantTimeCompare SSA) over every digest/checksum byte string within the length bound: the solver shows Check returns (true,nil) iff checksum == digest, and the documented sentinel errors otherwise. Right level because the property is a universal statement over byte strings whose rare points (prefix, extension, one flipped bit) are satisfying assignments, not samples.",
@@ -141,7 +141,7 @@ prop("C19", ["prims.go", "c17.go"],
 
 # ------------------------------------------------------------------------------------------------ C15 / C14
 prop("C15", ["prims.go", "c15.go"],
-     [run("reattach", "harnessC15", ["nothing-listening", "reattached", "test-mode", "refused-protocol", "real-process"],
+     [run("reattach", "harnessC15", ["nothing-listening", "reattached", "test-mode", "refused-protocol", "refused-then-kill-test-mode", "real-process"],
           quick={"bound": "something listening or not x Reattach.Protocol in {\"\", netrpc, grpc} x Test flag x three allowed lists; pid-based reattach through the real cmdrunner.ReattachFunc / CmdAttachedRunner / pidWait (modelled ticker and signal-0 probe)"}),
       run("test-mode", "harnessC15testMode", ["second-hand", "server-survives-kill", "stopped-by-context"], files=WORLD,
           quick={"bound": "an in-process test-mode Serve (net/rpc and gRPC) x histories: reattach at first hand; take ReattachConfig from the reattached client and reattach at second hand; Kill on either; reattach again; cancel the context"}),
@@ -155,7 +155,7 @@ prop("C15", ["prims.go", "c15.go"],
      note="Bound: the listed histories. Process table, dial and ticker are models. " + ENGINE)
 prop("C14", WORLD,
      [run("matrix", "harnessC14matrix", ["works", "protocol-refused", "tls-mismatch", "automtls", "mux"],
-          quick={"bound": "host x plugin composed: plugin protocol {net/rpc, gRPC} x AllowedProtocols {default, both, gRPC only} x transport security {none, AutoMTLS, static TLS both sides, host only, plugin only} x launch {RunnerFunc, exec.Cmd} x multiplexing {off, on (gRPC)}; healthy plugin; Start, Client, Dispense (known and unknown name), call, Ping, Kill"}),
+          quick={"bound": "host x plugin composed: plugin protocol {net/rpc, gRPC} x AllowedProtocols {default, both, gRPC only} x transport security {none, AutoMTLS, static TLS both sides, host only, plugin only, host AutoMTLS with a plugin that ignores PLUGIN_CLIENT_CERT} x launch {RunnerFunc, exec.Cmd} x multiplexing {off, on (gRPC)}; healthy plugin; Start, Client, Dispense (known and unknown name), call, Ping, Kill"}),
       run("mux-unsupported", "harnessC14oldPlugin", ["mux-unsupported"], quick={"bound": "a gRPC plugin announcing six fields, host requesting multiplexing; both launch methods"}),
       run("legacy-lines", "harnessC14legacyLines", ["legacy-accepted", "legacy-refused"], quick={"bound": "scripted plugins announcing 4-field, 5-field net/rpc and 5-field gRPC lines x three allowed lists x both launch methods"}),
       run("reattach-allowed", "harnessC15", ["reattached", "refused-protocol"], files=["prims.go", "c15.go"],
@@ -177,8 +177,10 @@ prop("C03", WORLD,
 # ------------------------------------------------------------------------------------------------ C12
 TLSC = "crypto/tls contract (trusted, not checked): a server presents Certificates[0]; with ClientAuth = RequireAndVerifyClientCert it accepts a client iff the client presents a certificate contained in ClientCAs (weaker ClientAuth values accept more, as documented); a client accepts a server iff InsecureSkipVerify or the server certificate is in RootCAs; a TLS end and a plaintext end never connect. Certificates are identities, pools are sets of identities."
 prop("C12", ["prims.go", "m_print.go", "c12.go"],
-     [run("serve-wiring", "harnessC12serve", ["automtls", "plain"],
-          quick={"bound": "plugin side, net/rpc: PLUGIN_CLIENT_CERT set or unset; the tls.Config reaching tls.NewListener compared field by field with the reference"}),
+     [run("serve-wiring", "harnessC12serve", ["automtls", "plain", "damaged-cert"],
+          quick={"bound": "plugin side, net/rpc: PLUGIN_CLIENT_CERT unset, a parsable certificate, or set but not a parsable certificate; the tls.Config reaching tls.NewListener compared field by field with the reference (a damaged certificate must fail closed: required client auth against an empty pool)"}),
+      run("damaged-cert", "harnessC12damagedCert", ["damaged-cert-done", "attacked"], files=WORLD,
+          quick={"bound": "host x plugin composed under AutoMTLS, net/rpc and gRPC, both launch methods, with a launcher that damages PLUGIN_CLIENT_CERT on its way to the plugin; every listener the plugin opened is attacked with the three intruder credential classes"}),
       run("intruders", "harnessC12", ["legit-works", "brokered-listeners", "intruders-refused"], files=WORLD,
           quick={"bound": "host x plugin composed under AutoMTLS, net/rpc and gRPC, both launch methods; listeners attacked: the plugin's main listener, a plugin-side and a host-side brokered gRPC listener; intruder credential classes: plaintext, TLS without certificate, TLS with a fresh self-signed certificate"}),
       run("impostor", "harnessC12impostor", ["impostor-refused"], files=WORLD,
@@ -195,8 +197,8 @@ YAMUX = "yamux model: a session is a pair of FIFO queues of streams; Open enqueu
 prop("C18", ["prims.go", "m_print.go", "c18.go"],
      [run("lifecycle", "harnessC18", ["mux", "no-mux"],
           quick={"bound": "plugin side, gRPC, multiplexing on/off, no brokered listeners: a whole life cycle Serve -> host connects -> controller Shutdown -> Serve returns, against the ghost file system"}),
-      run("world", "harnessC18world", ["dispensed", "host-serves", "plugin-serves", "two-plugin-servers", "host-listener-left-open", "rpc-callback", "clean"], files=WORLD,
-          quick={"params": {"trace": 0}, "bound": "host x plugin composed, net/rpc, gRPC and gRPC+mux, both launch methods; history: dispense and call; optionally a brokered server on the host dialled and called by the plugin; optionally one or two brokered servers on the plugin, each dialled and called by the host; optionally a host-side brokered listener still open at Kill (custom runner); then Kill and six seconds"})],
+      run("world", "harnessC18world", ["dispensed", "host-serves", "plugin-serves", "two-plugin-servers", "host-listener-left-open", "rpc-callback", "closed-before-kill", "clean"], files=WORLD,
+          quick={"params": {"trace": 0}, "bound": "host x plugin composed, net/rpc, gRPC and gRPC+mux, both launch methods; history: dispense and call; optionally a brokered server on the host dialled and called by the plugin; optionally one or two brokered servers on the plugin, each dialled and called by the host; optionally a host-side brokered listener still open at Kill (custom runner); then either Kill, or the protocol client closed first, three seconds (the plugin exits and the exit is recorded) and then Kill; then six seconds"})],
      [GHOSTFS, GRPCSEAM, YAMUX, EXIT] + WORLD_ASSUME,
      WORLD_STUBS,
      "histories with more than one brokered connection per direction; stdio traffic; goroutines inside gRPC and yamux (delegated)",
@@ -224,8 +226,8 @@ prop("C09", ["prims.go", "c09a.go"],
      [run("mux", "harnessC09a", ["accept-matched", "accept-timed-out", "probe-done"],
           quick={"bound": "MuxBroker: <= 2 inbound dials with IDs x1, x2 NOT assumed distinct at symbolic instants t1 <= t2, <= 1 local Accept(a) at tA, then a fresh matched pair after every timer expired; canonical schedule, symbolic clock (ties explored)"},
           thorough={"dpor": True, "max_reversals": 1, "max_wall_s": 1500, "bound": "as quick, and all schedules with <= 1 reversal (DPOR)"}),
-      run("grpc", "harnessC09grpc", ["history-done", "lonely-accept", "fresh-pair", "closed"], files=["prims.go", "c07.go"],
-          quick={"bound": "GRPCBroker without multiplexing, real stream pumps: <= 2 Dial calls nobody accepts (IDs not assumed distinct) and <= 1 Accept nobody dials, at symbolic instants; then a fresh routed pair; then Close of both brokers"}),
+      run("grpc", "harnessC09grpc", ["history-done", "lonely-accept", "fresh-pair", "retry-of-timed-out-id", "closed"], files=["prims.go", "c07.go"],
+          quick={"bound": "GRPCBroker without multiplexing, real stream pumps: <= 2 Dial calls nobody accepts (IDs not assumed distinct) and <= 1 Accept nobody dials, at symbolic instants; then a routed pair (accept, symbolic gap <= 4 s, dial) on a fresh ID or on the ID whose dial timed out earlier; then Close of both brokers", "params": {"as_c07": 0}}),
       run("grpc-mux", "harnessC09mux", ["history-done", "fresh-pair", "closed"], files=["prims.go", "c08.go"],
           quick={"bound": "GRPCBroker with multiplexing, both real muxers: <= 2 dials (knocks) nobody accepts, IDs not assumed distinct, symbolic instants; then a fresh pair; then Close of both brokers"})],
      [YAMUX, "encoding/binary.Read/Write of a uint32 moves one message on a stream", GRPCSEAM, GHOSTFS],
@@ -251,7 +253,9 @@ prop("C07", ["prims.go", "c07.go"],
           quick={"max_reversals": 1, "bound": "ID a accepted on the plugin and dialled from the host, ID b the other way round; symbolic distinct IDs; symbolic gap < 5 s either order; identity and namespace-translating runner; <= 1 reversal"},
           thorough={"max_reversals": 2, "max_wall_s": 1500, "bound": "as quick with <= 2 reversals"}),
       run("multi", "harnessC07multi", ["accept-first", "dial-first", "routed"], dpor=True,
-          quick={"max_reversals": 1, "bound": "three IDs outstanding at once, two of them in the same direction (both accepted on the plugin and dialled from the host), all accepts before all dials or the reverse, symbolic distinct IDs and gap; <= 1 reversal"})],
+          quick={"max_reversals": 1, "bound": "three IDs outstanding at once, two of them in the same direction (both accepted on the plugin and dialled from the host), all accepts before all dials or the reverse, symbolic distinct IDs and gap; <= 1 reversal"}),
+      run("retry-after-timeout", "harnessC09grpc", ["history-done", "fresh-pair", "retry-of-timed-out-id"],
+          quick={"params": {"as_c07": 1}, "bound": "C09's history run read as a routing claim: <= 2 dials nobody accepts (they time out), optionally an accept nobody dials, then accept - symbolic gap <= 4 s - dial on a fresh ID or on the ID whose dial timed out; canonical schedule, symbolic clock"})],
      [GRPCSEAM, GHOSTFS, "broker stream = FIFO pair; Send copies the message"], ["grpc", "net.Listen", "generated broker stream"],
      "TLS on brokered connections (C12); more than 3 IDs; the transport under gRPC",
      text="Bounded symbolic model checking of the real GRPCBroker (non-mux Accept, DialWithOptions, Run, getClientStream, timeoutWait), the real gRPCBrokerServer/gRPCBrokerClientImpl pumps and dialGRPCConn: the connection dialled for ID n reaches the listener created by Accept(n), in both directions and either order.",
